@@ -419,3 +419,99 @@ func isCountedRange(h *ssa.BasicBlock) bool {
 	}
 	return true
 }
+
+// L-BACK: the lexer's one-rune push-back is used as a push-back: every call of
+// back() directly follows a call of next() — no second back(), no back() after
+// peek() — which is the protocol under which 0 <= currentPos <= len(expression)
+// is preserved (next adds the decoded width, back subtracts that same width).
+func init() { register("L-BACK", ruleLexerBack) }
+
+func ruleLexerBack(c *Ctx) *RuleResult {
+	r := &RuleResult{Doc: "every call of Lexer.back() is preceded, on every path inside its function, by a call of Lexer.next() with no other cursor operation (back, peek) in between; currentPos/lastWidth are written only by next, back and tokenize's reset", Floor: 4}
+	next, back, peek := c.lexerNext(), c.method("Lexer", "back"), c.method("Lexer", "peek")
+	for _, fn := range allFuncs(c.SLib) {
+		if c.file(fn.Pos()) != "lexer.go" {
+			continue
+		}
+		n := 0
+		for _, b := range fn.Blocks {
+			for i, in := range b.Instrs {
+				call, ok := in.(*ssa.Call)
+				if !ok || staticCallee(call) != back {
+					continue
+				}
+				n++
+				r.Instances++
+				key := fmt.Sprintf("%s|back#%d", fname(fn), n)
+				// walk backwards over all paths to the nearest cursor operation
+				okAll := true
+				why := ""
+				seen := map[*ssa.BasicBlock]bool{}
+				var scan func(bb *ssa.BasicBlock, from int)
+				scan = func(bb *ssa.BasicBlock, from int) {
+					for j := from; j >= 0; j-- {
+						if cc, ok := bb.Instrs[j].(*ssa.Call); ok {
+							switch staticCallee(cc) {
+							case next:
+								return
+							case back, peek:
+								okAll = false
+								why = "preceded by " + staticCallee(cc).Name() + "() at " + c.pos(cc.Pos())
+								return
+							}
+						}
+					}
+					if len(bb.Preds) == 0 {
+						okAll = false
+						why = "reachable from the function entry without a next()"
+						return
+					}
+					for _, p := range bb.Preds {
+						if !seen[p] {
+							seen[p] = true
+							scan(p, len(p.Instrs)-1)
+						}
+					}
+				}
+				scan(b, i-1)
+				if okAll {
+					r.ok(key, c.pos(call.Pos()), fname(fn), "directly follows next() on every path")
+				} else {
+					r.viol(key, c.pos(call.Pos()), fname(fn), "back() is "+why+": the cursor would move back by a width that was not just added (currentPos can become negative or land inside a rune)")
+				}
+			}
+		}
+	}
+	// only next/back/tokenize write the cursor fields
+	allowed := map[*ssa.Function]bool{next: true, back: true, c.A.Tokenize: true}
+	for _, fn := range allFuncs(c.SLib) {
+		for _, b := range fn.Blocks {
+			for _, in := range b.Instrs {
+				st, ok := in.(*ssa.Store)
+				if !ok {
+					continue
+				}
+				fa, ok := st.Addr.(*ssa.FieldAddr)
+				if !ok {
+					continue
+				}
+				pt, ok := fa.X.Type().(*types.Pointer)
+				if !ok || !types.Identical(pt.Elem(), c.A.LexerT) {
+					continue
+				}
+				fnm := fieldName(fa.X.Type(), fa.Field)
+				if fnm != "currentPos" && fnm != "lastWidth" {
+					continue
+				}
+				r.Instances++
+				key := fmt.Sprintf("cursor-write|%s|%s", fname(fn), fnm)
+				if allowed[fn] {
+					r.ok(key, c.pos(st.Pos()), fname(fn), "cursor field written by its owner")
+				} else {
+					r.viol(key, c.pos(st.Pos()), fname(fn), "writes the lexer cursor field "+fnm+" outside next/back/tokenize")
+				}
+			}
+		}
+	}
+	return r
+}
